@@ -9,6 +9,7 @@ import (
 	"os"
 	"strconv"
 	"testing"
+	"time"
 )
 
 type ghostData struct {
@@ -292,3 +293,5 @@ func (e *Encoder) Encode(v any) error {
 	}
 	return e.Encoder.Encode(v)
 }
+
+func Tick() { time.Sleep(12 * time.Millisecond) }
